@@ -39,6 +39,14 @@ _ENV = {
     'HAIL_DEFAULT_NAMESPACE_NAME': 'default',
     'HAIL_QUERY_N_CORES': '1',
     'HAIL_DONT_RETRY_500': '0',
+    'HAIL_QUERY_STORAGE_URI': 'gs://verif-bucket/query',
+    'HAIL_QUERY_ACCEPTABLE_JAR_SUBFOLDER': '/jars',
+    'HAIL_BATCH_WORKER_IMAGE': 'batch-worker',
+    'HAIL_SSH_PUBLIC_KEY': '/dev/null',
+    'HAIL_AZURE_OAUTH_SCOPE': 'scope',
+    'BATCH_WORKER_IMAGE': 'batch-worker',
+    'BATCH_WORKER_IMAGE_ID': 'wid',
+    'DOCKER_PREFIX': 'docker.invalid/hail',
 }
 for _k, _v in _ENV.items():
     os.environ.setdefault(_k, _v)
